@@ -10,7 +10,7 @@ from __future__ import annotations
 import ast
 from typing import Dict, List, Optional
 
-from ..flow import RAISE, attr_chain, dump, paths
+from ..flow import RAISE, attr_chain, dump, kwarg, paths
 from ..repo import AnalysisError, ClassInfo, Repo
 from ..util import ends, norm_compare, parent_map, resolve_ctor, self_attr_assignments
 
@@ -174,6 +174,9 @@ def r4_purity_and_label(repo: Repo, rep):
                   why="labelling the output with the caller's space binds output columns to the wrong names")
     R6 = rep.rule("R-C08-6", "row-wise models use no batch-axis re-arranging tensor operation", floor=6,
                   why="reshape/transpose/permute can mix rows; outside the decidable idiom table they are reported UNDECIDED, never as violation")
+    R7 = rep.rule("R-C08-7", "row-wise models remove size-1 axes of input-derived tensors only by naming the axis (no dimensionless squeeze)", floor=6,
+                  why="squeeze() without an axis also removes the feature axis of a width-1 layer (or the batch axis of a single row); the next "
+                      "broadcast then pairs every row with every other row")
     model = repo.cls("models.model.Model")
     branch = repo.cls("models.deeponet.branchnets.BranchNet")
     funcs = []
@@ -208,11 +211,52 @@ def r4_purity_and_label(repo: Repo, rep):
                 rep.check(R5, sp is not None and dump(sp) == "self.output_space", fi.site(p.ret_node), fi.fq,
                           "returned Points(..., self.output_space)", f"space argument `{dump(sp)}`", dump(sp))
         if ci.name in ROWWISE_SCOPE:
+            _sized_squeeze(rep, R7, fi, pname)
             mix = sorted({n.attr for n in ast.walk(fi.node) if isinstance(n, ast.Attribute) and n.attr in MIXING})
             if mix:
                 _axes_decide(rep, R6, ci, fi, mix)
             else:
                 rep.ok(R6, fi.site(), fi.fq, "only row-preserving tensor operations", "no reshape/transpose/permute/view/flatten/roll/flip")
+
+
+def _sized_squeeze(rep, R7, fi, pname):
+    """squeeze calls without an axis on values computed from the input (flow-insensitive taint over the local names)"""
+    tainted = {pname}
+    changed = True
+    while changed:
+        changed = False
+        for n in ast.walk(fi.node):
+            tgt = val = None
+            if isinstance(n, ast.Assign):
+                tgt, val = n.targets, n.value
+            elif isinstance(n, ast.AugAssign):
+                tgt, val = [n.target], n.value
+            elif isinstance(n, (ast.For, ast.comprehension)):
+                tgt, val = [n.target], n.iter
+            if val is None or not any(isinstance(x, ast.Name) and x.id in tainted for x in ast.walk(val)):
+                continue
+            for t in tgt:
+                for x in ast.walk(t):
+                    if isinstance(x, ast.Name) and x.id not in tainted:
+                        tainted.add(x.id)
+                        changed = True
+    bad, named = [], 0
+    for n in ast.walk(fi.node):
+        if not (isinstance(n, ast.Call) and isinstance(n.func, ast.Attribute) and n.func.attr == "squeeze"):
+            continue
+        is_mod = attr_chain(n.func.value) == "torch"
+        subject = (n.args[0] if n.args else None) if is_mod else n.func.value
+        axis = kwarg(n, "dim", 1 if is_mod else 0)
+        if subject is None or not any(isinstance(x, ast.Name) and x.id in tainted for x in ast.walk(subject)):
+            continue
+        if axis is None:
+            bad.append(n)
+        else:
+            named += 1
+    for n in bad:
+        rep.violation(R7, fi.site(n), fi.fq, "squeeze names the axis it removes", f"`{dump(n)[:80]}` removes every axis of length 1 of an input-derived tensor", f"dimensionless squeeze of {dump(n.func.value)[:40]}")
+    if not bad:
+        rep.ok(R7, fi.site(), fi.fq, "no dimensionless squeeze of input-derived tensors", f"{named} squeeze call(s), all with an axis")
 
 
 def _axes_decide(rep, R6, ci, fi, mix):
@@ -456,8 +500,10 @@ def run(repo: Repo, rep):
     r2_fix_points_order(repo, rep)
     r3_compositions(repo, rep)
     r4_purity_and_label(repo, rep)
-    from .c12 import r3_selection  # the name-based selection this property's idioms rely on
+    from .c12 import r1_pairing, r3_selection, r6_empty_and_slices  # the name-based selection and the join (Points.joined) this property's idioms rely on
     r3_selection(repo, rep)
+    r1_pairing(repo, rep)
+    r6_empty_and_slices(repo, rep)
 
 
 _F = "src/torchphysics/models/fcn.py"
